@@ -25,9 +25,9 @@ const c05Rule = "case = protocol (ipfix | nf9 | nf5 | sflow) + a decodable messa
 	"non-trivial = message holds a string needing escape, a float, a boolean, a 64-bit extreme, or >= 2 data sets; distinct by hash of the case"
 
 type c05Case struct {
-	Proto string          `json:"proto"`
-	Flow  *wire.Scenario  `json:"flow,omitempty"`
-	NF5   *c08Case        `json:"nf5,omitempty"`
+	Proto string           `json:"proto"`
+	Flow  *wire.Scenario   `json:"flow,omitempty"`
+	NF5   *c08Case         `json:"nf5,omitempty"`
 	SFlow *wire.SFDatagram `json:"sflow,omitempty"`
 }
 
